@@ -400,7 +400,10 @@ def install(E):
         def f(E, st, fr, ins, a):
             v = a[1]
             if is_sym(v):
-                return put_bytes(E, st, a[0], token(st, "int", v))
+                v = z3.simplify(v)
+                if not z3.is_bv_value(v):
+                    raise S.SymOffset(v)      # integers are printed as digits: concretise by solver enumeration
+                v = v.as_long()
             v = to_signed(v, bits) if signed else v
             return put_bytes(E, st, a[0], list(str(v).encode()))
         return f
